@@ -156,6 +156,35 @@ Theorem builder_edits :
 Proof. split; [exact default_edit_l|exact connect_edit_l]. Qed.
 Print Assumptions builder_edits.
 
+(* clear_inputs(c) leaves no explicit connection (every parameter is resolved by the default connections
+   again); replace_component(c, comp, **inputs) keeps, for each parameter of the new component, the explicit
+   connection the old component had for that name unless [inputs] gives one; both touch node c only. *)
+Theorem builder_edits_clear_replace :
+  (forall defaults p,
+     p_src (resolve_param defaults (with_conn p None)) = lookup (bp_name p) defaults /\
+     bp_name (with_conn p None) = bp_name p /\ bp_lazy (with_conn p None) = bp_lazy p /\
+     bp_typed (with_conn p None) = bp_typed p /\ bp_nullable (with_conn p None) = bp_nullable p /\
+     bp_ty (with_conn p None) = bp_ty p) /\
+  (forall old p,
+     bp_conn (keep_conn old p) = match bp_conn p with Some s => Some s | None => old_conn old (bp_name p) end /\
+     bp_name (keep_conn old p) = bp_name p /\ bp_lazy (keep_conn old p) = bp_lazy p /\
+     bp_typed (keep_conn old p) = bp_typed p /\ bp_nullable (keep_conn old p) = bp_nullable p /\
+     bp_ty (keep_conn old p) = bp_ty p) /\
+  (forall c f l n, n <> c -> lookup n (edit_node c f l) = lookup n l).
+Proof. split; [exact clear_edit_l|split; [exact replace_edit_l|exact edit_node_other]]. Qed.
+Print Assumptions builder_edits_clear_replace.
+
+(* "cyclic wirings are rejected" at EVERY build of a builder's life: whatever edits led to the state
+   (connect, default_connection, alias, literal, clear_inputs, replace_component) and whatever was built,
+   hashed or serialised from the builder before -- [build] reads the state only --, a resolved wiring with
+   a closed path is rejected, and an accepted one is the resolved wiring of that state and has a rank. *)
+Theorem cycle_rejected_at_every_build : forall b edits,
+  let b' := fold_left apply_edit edits b in
+  (forall n, path (resolve b') n n -> build b' = None) /\
+  (forall g, build b' = Some g -> g = resolve b' /\ exists rank, ranked g rank).
+Proof. exact history_cycle_rejected_l. Qed.
+Print Assumptions cycle_rejected_at_every_build.
+
 Theorem built_pipeline_is_acyclic : forall b g, build b = Some g ->
   g = resolve b /\ exists rank, ranked g rank /\ forall n, rank n < 2 + length g.
 Proof. exact build_ranked_l. Qed.
